@@ -328,21 +328,21 @@ def gen_mquic(verif, dst, repo):
     w = os.path.join(repo, "wtransport", "src")
     gen_root = os.path.join(dst, "src", "gen")
     sliced = {}
-    err = open(os.path.join(w, "error.rs")).read()
-    items = []
-    for rx, what in [(r"^pub enum StreamWriteError \{", "StreamWriteError"), (r"^pub enum StreamReadError \{", "StreamReadError"),
-                     (r"^pub enum StreamReadExactError \{", "StreamReadExactError"), (r"^pub struct ClosedStream;", None)]:
-        if what is None:
-            m = re.findall(r"(?:^#\[[^\n]*\]\n)*^pub struct ClosedStream;", err, re.M)
-            if len(m) != 1:
-                raise GenError("error.rs: expected exactly one `pub struct ClosedStream;`")
-            items.append(m[0])
-            sliced["wtransport/src/error.rs ClosedStream"] = len(m[0])
-        else:
-            t, ln = slice_item(err, rx, what)
-            items.append(t)
-            sliced[f"wtransport/src/error.rs:{ln} {what}"] = len(t)
-    write_if_changed(os.path.join(gen_root, "error_items.rs"), "\n\n".join(items) + "\n")
+    # error.rs is re-hosted as a whole; the only change is the type of the three `quic_connection` parameters
+    # (`&quinn::Connection` cannot be constructed without a live connection): a model with `close_reason()`
+    err = strip_test_modules(open(os.path.join(w, "error.rs")).read())
+    n_sub = err.count("quic_connection: &quinn::Connection")
+    if n_sub != 3:
+        raise GenError(f"error.rs: expected 3 `quic_connection: &quinn::Connection` parameters, found {n_sub}")
+    err = err.replace("quic_connection: &quinn::Connection", "quic_connection: &crate::ModelConnection")
+    # the harness module is attached as a child of `error` so that it can read the private fields of H3Error / QuicProtoError
+    err += '\n#[cfg(kani)]\n#[path = "../error/vh_error.rs"]\nmod vh_error;\n'
+    write_if_changed(os.path.join(gen_root, "error.rs"), err)
+    sliced["wtransport/src/error.rs (whole file re-hosted; 3 parameter types `&quinn::Connection` -> `&crate::ModelConnection`)"] = len(err)
+    drv = open(os.path.join(w, "driver", "mod.rs")).read()
+    t, ln = slice_item(drv, r"^pub enum DriverError \{", "DriverError")
+    sliced[f"wtransport/src/driver/mod.rs:{ln} DriverError"] = len(t)
+    write_if_changed(os.path.join(gen_root, "driver_error.rs"), t + "\n")
 
     utils = open(os.path.join(w, "driver", "utils.rs")).read()
     us = []
